@@ -238,7 +238,8 @@ def random_candidates(rng, n, length):
 
 def filter_enabled(wdir, cands, tag):
     """TLC keeps of every candidate the statements Config.tla enables (Config_Filter.tla)."""
-    parts = [cands[i::vlib.NCPU] for i in range(vlib.NCPU)]
+    nparts = 4
+    parts = [cands[i::nparts] for i in range(nparts)]
     parts = [p for p in parts if p]
 
     def one(n_part):
@@ -259,7 +260,11 @@ def filter_enabled(wdir, cands, tag):
 def validate(wdir, cases, events, tag, chunks=None):
     by = vlib.events_by_case(events)
     execs = [(c["id"], [e for e in by.get(c["id"], []) if e["e"] in ("Obs", "Crash")]) for c in cases]
-    bad, totals, results = vlib.validate_traces("Config_Trace", "Config_Trace.cfg", execs, wdir, tag, chunks=chunks, timeout_s=1500)
+    if chunks is None:
+        # a TLC process costs ~10 CPU-seconds before its first state: few large chunks beat many small ones (measured)
+        chunks = max(1, min(8, sum(len(x[1]) for x in execs) // 40000, len(execs)))
+        chunks = max(chunks, min(4, len(execs)))
+    bad, totals, results = vlib.validate_traces("Config_Trace", "Config_Trace.cfg", execs, wdir, tag, chunks=chunks, timeout_s=3000, xmx="8g")
     tally = {}
     rows = 0
     for r in results:
@@ -307,7 +312,7 @@ def run(rep, tier, seed, replay):
         #         refuted with the formula named for it (non-vacuity); 2. generator: one history per transition of
         #         the bounded state graphs.  The TLC runs are independent: a small pool runs them side by side.
         ideal = [("inherit", 4), ("nest", 4), ("kinds", 3), ("bases", 4)] if quick else [("inherit", 5), ("nest", 5), ("kinds", 4), ("bases", 5)]
-        gens = [("inherit", 3), ("nest", 3), ("kinds", 2), ("bases", 3)] if quick else [("inherit", 4), ("nest", 4), ("kinds", 3), ("bases", 4)]
+        gens = [("inherit", 3), ("nest", 3), ("kinds", 3), ("bases", 3)] if quick else [("inherit", 4), ("nest", 4), ("kinds", 3), ("bases", 4)]
         jobs = [("ideal", prof, depth) for prof, depth in ideal] + [("gen", prof, depth) for prof, depth in gens] + [("dev",) + d for d in DEVIATIONS]
 
         def tlc_job(j):
@@ -342,17 +347,20 @@ def run(rep, tier, seed, replay):
                     if p not in seen_h:
                         seen_h.add(p)
                         hists.append(json.loads(p))
+        hists.sort(key=lambda h: (len(h), json.dumps(h, sort_keys=True)))     # TLC's workers emit in no fixed order
         phase("design checks, deviations, generators done")
         rep.exhaustive = True
         cases = []
         for n, h in enumerate(hists):
-            cases.append(make_case("t%d" % n, h, "grouped", prune=quick))
+            # thorough tier: every 8th history with the full (unpruned) path table
+            prune = quick or n % 8 != 0
+            cases.append(make_case("t%d" % n, h, "grouped", prune=prune))
             if len(h) >= 2:
                 # same statements, every one in its own re-opening, the last one in a second file
-                cases.append(make_case("t%df" % n, h, "flat", split_last=True, prune=quick))
+                cases.append(make_case("t%df" % n, h, "flat", split_last=True, prune=prune))
         phase("%d BFS histories generated" % len(hists))
         # ---- 3. seeded random deeper histories over the wider universe
-        nrand, length = (600, 9) if quick else (12000, 14)
+        nrand, length = (1500, 10) if quick else (12000, 14)
         rh = filter_enabled(wdir, random_candidates(rng, nrand, length), "rnd")
         for n, h in enumerate(rh):
             cases.append(make_case("r%d" % n, h, "grouped" if n % 2 == 0 else "flat"))
@@ -361,8 +369,8 @@ def run(rep, tier, seed, replay):
 
     rep.rule = ("every transition (state, statement) of the bounded Config_MC state graphs replayed as the shortest history reaching it, rendered "
                 "grouped in one file and flat with the last statement in a second file, plus seeded random histories filtered by the spec's Enabled; "
-                "per case the query table over all paths of length <= 3 over the names used and a missing one (quick tier and random part: below a path "
-                "answered with configNull only the missing name is tried); "
+                "per case the query table over all paths of length <= 3 over the names used and a missing one (below a path answered with configNull only the missing "
+                "name is tried, except for every 8th history of the thorough tier); "
                 "non-trivial = config text with >= 2 statements; distinct by rendered texts")
     rep.extra["distinct_nontrivial"] = len({"|".join(c["files"]) for c in cases if sum(len(f) for f in c["ops"]) >= 2})
     phase("%d cases rendered" % len(cases))
@@ -390,7 +398,7 @@ def run(rep, tier, seed, replay):
         by_key.setdefault("C15/%s/%s" % (b["why"], b["op"]), []).append(b)
 
     def size(x):
-        return (sum(len(f) for f in cmap[x["id"]]["ops"]), len("".join(cmap[x["id"]]["files"])))
+        return (sum(len(f) for f in cmap[x["id"]]["ops"]), len("".join(cmap[x["id"]]["files"])), "|".join(cmap[x["id"]]["files"]))
 
     def report(key, case, x, ex, frc, count):
         evs = ex[0][1]
@@ -420,7 +428,7 @@ def run(rep, tier, seed, replay):
                 continue
             ok = True
             report(key, case, keys2[key], ex2, force, max(1, tally.get(key[len("C15/"):], 1)))
-            if key.startswith("C15/Acyclic/") and not force:
+            if key.startswith("C15/Acyclic/") and not force and not any(k.startswith("C15/EveryLookupTerminates/") for k in rep.found):
                 # what the cycle does to lookups: the same case with the queries forced through (the bulk run skips them)
                 ev3 = vlib.run_driver("config", [driver_case(case, True)], wdir, kind="rel", timeout_s=CASE_TIMEOUT_S, jobs=1, tag="confirmf")
                 ex3, bad3, _, _, _, _ = validate(wdir, [case], ev3, "c15confirmf", chunks=1)
